@@ -337,20 +337,33 @@ func translate(context Context, args ...Result) (Result, error) {
 	}
 
 	src := args[0].String()
-	old := args[1].String()
-	new := args[2].String()
+	old := []rune(args[1].String())
+	new := []rune(args[2].String())
 
-	for i := range old {
-		r := ""
+	// Every character is mapped once, by the first occurrence of it in the
+	// second argument; characters without a counterpart in the third argument
+	// are removed.
+	mapping := make(map[rune]int, len(old))
 
-		if i < len(new) {
-			r = string(new[i])
+	for i, r := range old {
+		if _, ok := mapping[r]; !ok {
+			mapping[r] = i
 		}
-
-		src = strings.Replace(src, string(old[i]), r, -1)
 	}
 
-	return String(src), nil
+	ret := strings.Builder{}
+
+	for _, r := range src {
+		i, ok := mapping[r]
+
+		if !ok {
+			ret.WriteRune(r)
+		} else if i < len(new) {
+			ret.WriteRune(new[i])
+		}
+	}
+
+	return String(ret.String()), nil
 }
 
 func boolean(context Context, args ...Result) (Result, error) {
